@@ -40,6 +40,11 @@ IS_LOOP = ("truth", "isinstance(P:event,LoopEvent)", "1")
 _UNDECIDED = ("any", (("truth", "P:self.loop_kill_paths[USub(1)]", "1"),
                       ("truth", "P:self.will_merge", "0")), "1")
 _HAS_PATH = ("cmp", "P:self.current_path", "Is", "None", "0")
+_NO_LONELY = ("cmp", "P:logic_block_holder.lonely_merge_index", "Is", "None",
+              "1")
+_LB_UNDECIDED = ("any", (
+    ("truth", "P:logic_block_holder.loop_kill_paths[USub(1)]", "1"),
+    ("truth", "P:logic_block_holder.will_merge", "0")), "1")
 
 TABLE: dict[str, list[tuple]] = {
     # ---- Event -> Node: identity, type, loop references, merge flag
@@ -156,6 +161,26 @@ TABLE: dict[str, list[tuple]] = {
          [_UNDECIDED, _HAS_PATH,
           ("truth", "P:self.loop_kill_paths[USub(1)]", "0"),
           ("truth", "any(P:self.loop_kill_paths)", "1")], [], ""),
+    ],
+    # ---- is the node the walk arrived at a merge node of the open block?
+    "check_is_merge_node_for_logic_block": [
+        ("a block that has decided to merge merges at once for a non-kill "
+         "path", "ret", "", "", ("True",),
+         [_NO_LONELY, ("truth", "P:logic_block_holder.will_merge", "1"),
+          ("truth", "P:logic_block_holder.loop_kill_paths[USub(1)]", "0")],
+         [], ""),
+        ("a kill path is compared with the OTHER kill paths only", "ret", "",
+         "", ("check_has_valid_merge(P:node,P:logic_block_holder."
+              "paths_loop_kill[:USub(1)],P:node_class_graph)",),
+         [_NO_LONELY, _LB_UNDECIDED,
+          ("truth", "P:logic_block_holder.loop_kill_paths[USub(1)]", "1")],
+         [], ""),
+        ("a normal path with the OTHER normal paths only", "ret", "", "",
+         ("check_has_valid_merge(P:node,P:logic_block_holder."
+          "paths_non_loop_kill[:USub(1)],P:node_class_graph)",),
+         [_NO_LONELY, _LB_UNDECIDED,
+          ("truth", "P:logic_block_holder.loop_kill_paths[USub(1)]", "0")],
+         [], ""),
     ],
     "LogicBlockHolder._check_merge_is_correct": [
         ("XOR blocks merge wherever their paths meet", "ret", "", "",
